@@ -73,6 +73,9 @@ type Unit struct {
 	entryHeld map[string][]string
 	witnesses []string
 	collectW  bool
+	hypsV       []hyp     // assumed forallv (typed, unbounded) clauses
+	keyCands    []keyCand // map keys mentioned while translating the current goal
+	collectKeys bool
 	skReuse   []string
 	skPos     int
 	freshRefs map[string]bool
@@ -469,6 +472,25 @@ func sortedKeys[V any](m map[string]V) []string {
 // representation invariant of its Go type (well-typed heap).
 func (u *Unit) heapTyping(key, c string) { u.heapTypingA(key, c, "") }
 
+// refTermsOf: the references held in a value of type t (the value itself, or the reference-typed
+// fields of a struct value, nested structs included)
+func (u *Unit) refTermsOf(term string, t types.Type, depth int) []string {
+	if isRefLike(t) {
+		return []string{refOf(term, t)}
+	}
+	if st, ok := t.Underlying().(*types.Struct); ok && depth < 3 {
+		if _, isIfc := t.Underlying().(*types.Interface); isIfc {
+			return nil
+		}
+		var out []string
+		for i := 0; i < st.NumFields(); i++ {
+			out = append(out, u.refTermsOf("("+u.fieldSel(t, i)+" "+term+")", st.Field(i).Type(), depth+1)...)
+		}
+		return out
+	}
+	return nil
+}
+
 // heapTypingA: with allocBound != "", references stored in the heap constant also point to
 // objects that exist (are not above the allocation counter of that state).
 func (u *Unit) heapTypingA(key, c, allocBound string) {
@@ -476,16 +498,33 @@ func (u *Unit) heapTypingA(key, c, allocBound string) {
 	if !ok {
 		return
 	}
-	if allocBound != "" && isRefLike(et) {
+	if allocBound != "" {
+		bound := func(el string) string {
+			var parts []string
+			for _, rt := range u.refTermsOf(el, et, 0) {
+				parts = append(parts, "(<= "+rt+" "+allocBound+")")
+			}
+			if len(parts) == 0 {
+				return ""
+			}
+			if len(parts) == 1 {
+				return parts[0]
+			}
+			return "(and " + strings.Join(parts, " ") + ")"
+		}
 		switch {
 		case strings.HasPrefix(key, "M."):
 			el := "(select (select " + c + " r) i)"
-			u.emit("(assert (forall ((r Int) (i %s)) (! (<= %s %s) :pattern (%s))))", u.mode.idxSort(), refOf(el, et), allocBound, el)
-			u.typingLines[len(u.lines)-1] = true
+			if b := bound(el); b != "" {
+				u.emit("(assert (forall ((r Int) (i %s)) (! %s :pattern (%s))))", u.mode.idxSort(), b, el)
+				u.typingLines[len(u.lines)-1] = true
+			}
 		case strings.HasPrefix(key, "H."), strings.HasPrefix(key, "C."):
 			el := "(select " + c + " r)"
-			u.emit("(assert (forall ((r Int)) (! (<= %s %s) :pattern (%s))))", refOf(el, et), allocBound, el)
-			u.typingLines[len(u.lines)-1] = true
+			if b := bound(el); b != "" {
+				u.emit("(assert (forall ((r Int)) (! %s :pattern (%s))))", b, el)
+				u.typingLines[len(u.lines)-1] = true
+			}
 		}
 	}
 	I := u.mode.idxSort()
@@ -525,4 +564,10 @@ func (u *Unit) strEq(a, b string) string {
 		parts = append(parts, fmt.Sprintf("(= (select (S_arr %s) %s) %s)", other, m.idxLit(int64(i)), m.intLit(bigInt(int64(lit[i])), intInfo{8, false})))
 	}
 	return "(and " + strings.Join(parts, " ") + ")"
+}
+
+// keyCand: a term used as a map key in a goal; typed universal hypotheses are instantiated there
+type keyCand struct {
+	typ  types.Type
+	term string
 }
